@@ -26,7 +26,7 @@
 From Coq Require Import ZArith QArith Qminmax List.
 From VL Require Import Prelude.PyDict Model.GetNBest Model.Convert Model.Cardinal Proofs.Cardinal_proofs
      Proofs.MJ_proofs Proofs.JR_proofs Model.Condorcet Model.Star Proofs.Star_proofs
-     Model.Quota Model.AllocScore Proofs.AllocScore_proofs Proofs.MJ_removal_proofs.
+     Model.Quota Model.AllocScore Proofs.AllocScore_proofs Proofs.MJ_removal_proofs Proofs.MJ_seats_proofs.
 From Coq Require Import Permutation.
 Import ListNotations.
 Close Scope Q_scope.
@@ -422,6 +422,67 @@ Example C12_mj_multi_copy_example :
   mj_ch ex_sub ex_med = 2%Z /\ mj_successive 2 ex_sub = inl (mj_remove ex_sub ex_med 2).
 Proof. exact mj_multi_copy_example. Qed.
 
+(* ---- majority judgment for ANY number of seats against an independent reference order (Proofs/MJ_seats_proofs.v).
+   The reference is per candidate: the removal sequence (majority value) of the grade counts [d] -
+   [mj_seq k d] = the lower median of d after k single removals of the then current lower median (None once the
+   candidate has run out of grades); [mj_lex_lt d' d] = the sequence of d' is lexicographically below that of d:
+   they agree (as numbers) on the entries before some k, both have an entry k, and there d' is strictly lower.
+   Default tie-break, every seat count n >= 1, every configuration: an answer contains no tie object, has
+   min(n, number of candidates) distinct entries, all of them candidates of the votes, and EVERY elected candidate is
+   lexicographically strictly above EVERY candidate left out - the answer is exactly the top-n set of the reference
+   order (for n = 1: the unique lexicographic maximum).  cs_ok (counts >= 0, grades of one candidate numerically
+   distinct) is the well-formedness of the score dictionaries; cs_okb decides it (C12_mj_seats_example). *)
+Theorem C12_mj_seats_default : forall cf votes n sc r,
+  1 <= n -> corrected_scores cf votes = inl sc -> Forall cs_ok sc ->
+  majority_judgment false cf votes n = inl r ->
+  (forall x, In x r -> exists c, x = Cand c) /\ length r = Nat.min n (length sc) /\ NoDup r /\
+  (forall c, In (Cand c) r -> In c (map fst sc)) /\
+  (forall c d c' d', In (Cand c) r -> In (c, d) sc -> In (c', d') sc -> ~ In (Cand c') r -> mj_lex_lt d' d).
+Proof. exact mj_default_seats_rule. Qed.
+
+(* the tie-breaker itself (MajorityJudgment._tiebreak_default, recursion over the seats included) on any set of
+   candidates: same statement *)
+Theorem C12_mj_seats_tiebreaker : forall fuel sub n r,
+  NoDup (map fst sub) -> Forall cs_ok sub -> 1 <= n ->
+  mj_default fuel sub n = inl r ->
+  (forall x, In x r -> exists c, x = Cand c) /\ length r = Nat.min n (length sub) /\ NoDup r /\
+  (forall c d c' d', In (Cand c) r -> In (c, d) sub -> In (c', d') sub -> ~ In (Cand c') r -> mj_lex_lt d' d).
+Proof.
+  intros fuel sub n r Hnd Hok Hn Hr. destruct (mj_default_seats fuel sub n r Hnd Hok Hn Hr) as [H1 H2].
+  destruct (mj_default_seats_count fuel sub n r Hnd Hn Hr) as [H3 H4]. repeat split; assumption.
+Qed.
+
+(* plus rule, every seat count: the answer has min(n, candidates) entries; a candidate listed plainly has strictly
+   more grades at or above the shared median than every candidate with the same median that is not; the members of a
+   reported tie have at least as many as any such candidate, and exactly as many as each other *)
+Theorem C12_mj_seats_plus : forall cf votes n sc med r,
+  1 <= n -> corrected_scores cf votes = inl sc -> aggregate FMedianLow sc = inl med ->
+  majority_judgment true cf votes n = inl r ->
+  length r = Nat.min n (length sc) /\
+  forall c vc d c' vc' d', In (c, vc) med -> In (c, d) sc -> In (c', vc') med -> In (c', d') sc -> (vc' == vc)%Q ->
+    ~ In (Cand c') r ->
+    (In (Cand c) r -> (counts_over d' vc < counts_over d vc)%Z) /\
+    (forall T, In (TieR T) r -> In c T ->
+       (counts_over d' vc <= counts_over d vc)%Z /\ (In c' T -> counts_over d' vc = counts_over d vc)).
+Proof. exact mj_plus_seats_rule. Qed.
+
+(* the removal sequence while the loop removes several copies at once: the first mj_ch entries of every candidate still
+   level are the shared median, and what the loop keeps is the dictionary after mj_ch single removals *)
+Theorem C12_mj_seats_round : forall sub medians T c dn,
+  NoDup (map fst sub) -> Forall cs_ok sub -> aggregate FMedianLow sub = inl medians ->
+  In (c, dn) (mj_round sub medians T) ->
+  exists d m, In (c, d) sub /\ In c T /\ In (c, m) medians /\
+    mj_rmk (Z.to_nat (mj_ch (mj_level sub T) medians)) d = inl dn /\
+    forall j, j < Z.to_nat (mj_ch (mj_level sub T) medians) -> mj_seq j d = Some m.
+Proof. intros sub medians T c dn Hnd Hok Ha Hin. exact (mj_round_seq sub medians T Hnd Hok Ha c dn Hin). Qed.
+
+Example C12_mj_seats_example :
+  majority_judgment false ex_seats_cfg ex_seats_votes 2 = inl [Cand 2%positive; Cand 3%positive] /\
+  exists sc, corrected_scores ex_seats_cfg ex_seats_votes = inl sc /\ Forall cs_ok sc /\
+    mj_seq 0 (dget_or sc 1%positive []) = Some 1%Q /\ mj_seq 0 (dget_or sc 2%positive []) = Some 1%Q /\
+    mj_seq 1 (dget_or sc 1%positive []) = Some 0%Q /\ mj_seq 1 (dget_or sc 2%positive []) = Some 1%Q.
+Proof. exact mj_seats_example. Qed.
+
 Print Assumptions C12_combinations_complete.
 Print Assumptions C12_combinations_sound.
 Print Assumptions C12_pav_optimal.
@@ -458,3 +519,7 @@ Print Assumptions C12_alloc_tie_second_refuted.
 Print Assumptions C12_alloc_zero_weight_refuted.
 Print Assumptions C12_mj_multi_copy.
 Print Assumptions C12_mj_multi_copy_general.
+Print Assumptions C12_mj_seats_default.
+Print Assumptions C12_mj_seats_tiebreaker.
+Print Assumptions C12_mj_seats_plus.
+Print Assumptions C12_mj_seats_round.
